@@ -106,9 +106,35 @@ pub fn run_map(case: &MapCase, st: &mut Stats) -> CaseResult {
             st.bump("map.diagram.smoothed");
             b.smooth(f, ns)
         }
-        (2, true) if case.src.cnf().is_some() => {
+        (2, true) if !t.is_const() => {
+            // the function as a CNF: the source's own, or one maximal clause per falsifying assignment (merged
+            // pairwise where two of them differ in one variable only, so that clauses of several lengths occur)
             st.bump("map.diagram.top_down");
-            rsdd::builder::decision_nnf::DecisionNNFBuilder::compile_cnf_topdown(&td, &case.src.cnf().unwrap().to_rsdd())
+            let cnf = match case.src.cnf() {
+                Some(c) => c.to_rsdd(),
+                None => {
+                    let mut clauses: Vec<Vec<(usize, bool)>> = Vec::new();
+                    let mut used = vec![false; 1 << n];
+                    for a in 0..(1usize << n) {
+                        if t.get(a) || used[a] {
+                            continue;
+                        }
+                        // merge with a falsifying neighbour that differs in the lowest possible variable
+                        let nb = (0..n).map(|v| a ^ (1 << v)).find(|b2| *b2 > a && !t.get(*b2) && !used[*b2]);
+                        let drop = nb.map(|b2| (a ^ b2).trailing_zeros() as usize);
+                        if let Some(b2) = nb {
+                            used[b2] = true;
+                        }
+                        clauses.push((0..n).filter(|v| Some(*v) != drop).map(|v| (v, (a >> v) & 1 == 0)).collect());
+                    }
+                    // every variable must be mentioned so that the CNF has n variables
+                    clauses.push(vec![(n - 1, true), (n - 1, false)]);
+                    rsdd::repr::Cnf::new(
+                        &clauses.iter().map(|c| c.iter().map(|(v, p)| rsdd::repr::Literal::new(VarLabel::new_usize(*v), *p)).collect::<Vec<_>>()).collect::<Vec<_>>(),
+                    )
+                }
+            };
+            rsdd::builder::decision_nnf::DecisionNNFBuilder::compile_cnf_topdown(&td, &cnf)
         }
         _ => {
             st.bump("map.diagram.canonical");
@@ -250,7 +276,7 @@ pub fn run_map(case: &MapCase, st: &mut Stats) -> CaseResult {
 impl SubCheckT for Map {
     type Case = MapCase;
     const NAME: &'static str = "marginal_map";
-    const RULE: &'static str = "random function over <=6 variables under a random order (in a quarter of the cases inside a builder with 9..198 variables, its variables scattered over labels that cross 32 / 64 / 128); query set = any subset in any order (empty, all, variables outside the support); weights k/8 in [0,1] (or, in a third of the cases, powers of two down to 2^-7 and their complements, with query weights any power of two down to 2^-15, so that values go far below 1e-9 and candidates lie closer than any fixed tolerance), normalised on non-query variables, arbitrary on query variables; the diagram queried is the canonical BDD or, when not embedded, that BDD smoothed over a prefix of the order, or the top-down compilation of the CNF source: marginal_map and bb::<RealSemiring> return exactly the maximum over all query assignments of the weighted count restricted to the assignment (exhaustive enumeration, exact dyadic arithmetic), the returned model assigns every query variable and attains that value (any maximiser accepted on ties); num_vars = n..n+3. Non-trivial: >=2 query variables in the support and >=2 distinct values among query assignments";
+    const RULE: &'static str = "random function over <=6 variables under a random order (in a quarter of the cases inside a builder with 9..198 variables, its variables scattered over labels that cross 32 / 64 / 128); query set = any subset in any order (empty, all, variables outside the support); weights k/8 in [0,1] (or, in a third of the cases, powers of two down to 2^-7 and their complements, with query weights any power of two down to 2^-15, so that values go far below 1e-9 and candidates lie closer than any fixed tolerance), normalised on non-query variables, arbitrary on query variables; the diagram queried is the canonical BDD or, when not embedded, that BDD smoothed over a prefix of the order, or the top-down compilation of a CNF of the function: marginal_map and bb::<RealSemiring> return exactly the maximum over all query assignments of the weighted count restricted to the assignment (exhaustive enumeration, exact dyadic arithmetic), the returned model assigns every query variable and attains that value (any maximiser accepted on ties); num_vars = n..n+3. Non-trivial: >=2 query variables in the support and >=2 distinct values among query assignments";
     fn cases(tier: Tier) -> u32 {
         tier.pick(30_000, 300_000)
     }
